@@ -1,14 +1,16 @@
 # Configuration of the C04 check
 META = dict(
-    harness=[],
+    harness=['C04'],
     fuzz=[
         dict(name='fz_expr', quick_runs=12000, max_len=160, quick_procs=2, thorough_procs=5, timeout=25, dict='fz_expr'),
         dict(name='fz_tokens', quick_runs=12000, max_len=96, quick_procs=2, thorough_procs=5, timeout=25, dict='fz_tokens'),
         dict(name='fz_json', quick_runs=6000, max_len=256, quick_procs=2, thorough_procs=3, timeout=25),
         dict(name='fz_ref', quick_runs=40000, max_len=192, quick_procs=1, thorough_procs=3),
     ],
-    engines='libFuzzer',
-    rule='libFuzzer (coverage-guided, ASan+UBSan, asserts on) over four in-process targets with the oracle inside: fz_expr (raw bytes as expression '
+    engines='rapidcheck + libFuzzer',
+    rule='rapidcheck (deterministic component, harness/props/C04.cpp): grammatical texts with corner literals (indices 0 / 32768 / 70000, integers '
+         'beyond 32 and 64 bits), texts damaged by truncation / deletion / transposition / spliced stray tokens, nesting up to depth 2000 in eight '
+         'shapes, all through the same oracle as the fuzz targets. libFuzzer (coverage-guided, ASan+UBSan, asserts on) over four in-process targets with the oracle inside: fz_expr (raw bytes as expression '
          'text, byte 0/1 choose syntax hint MATH/ASCII/auto, schema context, alias and constituent kind), fz_tokens (bytes -> indices into a '
          'vocabulary of every token of both syntaxes, identifiers of every kind, huge literals), fz_json (raw bytes or a schema document assembled '
          'from pools of valid/colliding/ill-formed identifiers, aliases, kinds, definitions, reference texts), fz_ref (reference text; shared with '
